@@ -10,7 +10,7 @@ CHECKS = {
     'C01': (True, 'exploration',
             'Hypothesis structured generation + enumerated sub-item adjacencies; round-trip oracle',
             'Thousands of generated PDUs of all 7 types (items in any order, 9 sub-item kinds, '
-            'boundary integers, payloads beyond 64 KiB) and all 81+9 sub-item adjacencies are '
+            'boundary integers, payloads beyond 64 KiB, single fields of 32767..60000 bytes) and all 81+9 sub-item adjacencies are '
             'round-tripped: recursive field equality and byte-exact re-encoding.',
             'Round-trip only (conformance is C02). Generated values are restricted to what the '
             'public constructors document (AE <=16 chars, UID <=64 chars, item totals < 64 KiB).',
@@ -19,22 +19,22 @@ CHECKS = {
             'Hypothesis differential against an independent strict reference PDU codec, both directions',
             'Library output is parsed by a strict length-driven reference parser (fields and every '
             'self-reported length compared); reference-encoded conformant PDUs (any sub-item order, '
-            'unknown sub-item types, several syntaxes/PDVs) are decoded by the library and compared.',
+            'unknown sub-item types, several syntaxes/PDVs, fields of 32 KiB and more) are decoded by the library and compared; objects modified after a first encode or after decode must encode as they are now.',
             'Trusts vf/refpdu.py (about 300 lines transcribed from PS3.8 9.3 / PS3.7 Annex D, with a '
             'self-test); AE titles compared modulo padding.', 'refpdu', 'DESIGN.md#C02'),
     'C03': (True, 'exploration',
             'exhaustive cut-offset enumeration + Hypothesis k-cuts on a simulated transport; metamorphic oracle (any segmentation == one PDU per segment)',
-            'Twelve conversations (both roles) are replayed through the real provider loop under a simulated '
+            'Fifteen conversations (both roles), Hypothesis-generated conversations and pipelined streams beyond 64 KiB are replayed through the real provider loop under a simulated '
             'socket/select with every single cut offset, pairs of cuts, one-byte dribble, whole bursts, random '
-            'k-cuts, each with the first segment already waiting or not and segments back-to-back or spaced; '
+            'k-cuts, read sizes equal to the length (half, third) of each PDU, each with the first segment already waiting or not and segments back-to-back or spaced; '
             'indications, bytes sent and final state must equal the one-PDU-per-segment delivery.',
             'Transport modelled as an ordered byte stream (vf/simnet.py); cuts are applied within the bytes the '
             'peer sends between two local actions.', 'simnet', 'DESIGN.md#C03'),
     'C05': (True, 'exploration',
             'bounded-exhaustive history enumeration from state-reaching prefixes + Hypothesis random walks; step-by-step differential against an executable PS3.8 model',
-            'All histories of up to 2 (quick) / 4 (thorough, 2.4M histories) further events from 19 prefixes that '
+            'All histories of up to 2 (quick) / 4 (thorough, millions of histories) further events from 23 prefixes that '
             'reach every protocol state, and random walks up to 30 steps, are executed on the real provider loop '
-            'under a deterministic transport/clock and compared after every step with the model: PDUs written, '
+            'under a deterministic transport/clock, with the default and with a 48-byte read size, and compared after every step with the model: PDUs written, '
             'indications, transport state, ARTIM, protocol state; plus the four invariants of the statement.',
             'Trusts vf/ulmodel.py; whole PDUs per segment; depth bound beyond which only sampling.',
             'simnet+ulmodel', 'DESIGN.md#C05'),
@@ -50,6 +50,7 @@ CHECKS = {
             'exhaustive (max PDU length x boundary data length) grid + Hypothesis; fragment-stream invariants and byte-exact concatenation oracle',
             'Every maximum PDU length 7..70 (thorough 7..300) x every data length within +-2 of a multiple of the '
             'fragment size, 2^k boundaries up to 2^32-1, all 23 classes, three data sources, both encode() and '
+            'Association.send, several encode() generators consumed alternately; '
             'Association.send: size bound, flags, order, context id, non-emptiness and byte-exact content.',
             'The command-set bytes are compared with dsutils.encode(command_set) (their well-formedness is C08) '
             'and re-read by the independent reader vf/refcmd.py.', 'refcmd', 'DESIGN.md#C06'),
@@ -57,7 +58,7 @@ CHECKS = {
             'exhaustive PDV-grouping enumeration (all 2^(n-1) compositions for short lists) + Hypothesis; reference-encoded input',
             'Reference-encoded (and library-encoded) messages of all 23 command fields are delivered in every '
             'composition of their fragment list into PDUs (lists up to 9/12 fragments), sampled groupings for '
-            'long lists, in-memory / temp-file / directory reception, genuine data sets in 3 transfer syntaxes; '
+            'long lists, in-memory / temp-file / directory reception, every Command Data Set Type value but 0101H, genuine data sets in 3 transfer syntaxes, sequences of messages through the real provider loop; '
             'completion must flip exactly at the last required fragment and content must be byte-identical.',
             'Command sets and fragments come from vf/refcmd.py / vf/dimsegen.py, not from the library; '
             'fragments of a single message per sequence.', 'refcmd', 'DESIGN.md#C07'),
@@ -70,7 +71,7 @@ CHECKS = {
             'Trusts vf/refcmd.py (command dictionary from PS3.7 Annex E).', 'refcmd', 'DESIGN.md#C08'),
     'C09': (True, 'exploration',
             'exhaustive configuration x request enumeration + Hypothesis on a scripted provider; wire-level oracle via the reference parser',
-            'All 128 entity configurations (served-class subsets x supported-syntax subsets) x all requests of <=1 '
+            'All 128 entity configurations (served-class subsets x supported-syntax subsets; the entity optionally also a service user of the other / of all classes; role-selection items in half of the requests) x all requests of <=1 '
             '(quick) / <=2 (thorough, 3.3M) contexts over all 40 ordered syntax lists, and generated requests with '
             'up to 8 contexts, go through the real AssociationAcceptor.handle(); the A-ASSOCIATE-AC bytes are '
             'checked item by item, the three internal tables must agree with them, and routing is probed with a '
@@ -86,7 +87,7 @@ CHECKS = {
             'fakedul', 'DESIGN.md#C10'),
     'C11': (True, 'exploration',
             'Hypothesis over add_scu/add_scp sequences and reply patterns + exhaustive reply enumeration for small proposals; wire-level oracle',
-            'Generated entity configurations (incl. overlapping class lists and totals around/beyond 128 classes, '
+            'Generated entity configurations (incl. overlapping class lists, supported_ts changed between calls, an earlier partly refused request, totals around/beyond 128 classes, '
             'and the own storage_scp of the library) request an association against a scripted peer whose reply '
             'mixes result codes 0-4 and syntax choices; the A-ASSOCIATE-RQ bytes, accepted-context tables and '
             'get_scu() for every configured and two foreign classes are checked.',
@@ -94,7 +95,7 @@ CHECKS = {
             'fakedul', 'DESIGN.md#C11'),
     'C12': (True, 'exploration',
             'structure-aware mutation fuzzing + Hypothesis random streams on the simulated transport (thorough: atheris coverage-guided campaign); crash/hang/well-formed-output/idle/user-told oracle inside the target',
-            'From 8 protocol-state prefixes the real provider loop is fed ~900 structure-aware mutations of valid '
+            'From 18 protocol-state prefixes (incl. an accepting user, half-received messages with the data set outstanding in memory / in a file, release collisions) the real provider loop is fed ~1100 structure-aware mutations of valid '
             'PDUs, 40 semantically hostile P-DATA streams and Hypothesis-generated mixes under varying '
             'segmentation, followed by the peer closing and ARTIM passing; the loop must return normally, never '
             'block, write only well-formed PDUs, end idle and closed, tell an engaged user, and answer certainly '
@@ -104,9 +105,9 @@ CHECKS = {
             'simnet', 'DESIGN.md#C12'),
     'C13': (True, 'fault_enumeration',
             'exhaustive fault injection over a scenario corpus on the simulated transport: disconnect at every byte prefix, silence at every ARTIM arming point, kill/stop at every quiescent point',
-            'For each of 16 conversations the peer disconnects after every byte prefix (with/without the next '
+            'For each of 19 conversations the peer disconnects after every byte prefix (with/without the next '
             'local step racing it); 13 silence points are checked just before and just after the ARTIM deadline '
-            '(also with a chattering peer); kill and stop() are injected at every quiescent point; '
+            '(also with a chattering or stalling peer, and while another association is served in the same process); 40 / 1100 pipelined messages the local user never fetches followed by each ending; kill and stop() are injected at every quiescent point; '
             'Association.kill() for both stop() outcomes. The loop must return, end idle/closed, ARTIM stopped, '
             'and an engaged user must have been told.',
             'Simulated time; exhaustive over the corpus of conversations, not over all conversations.',
@@ -115,7 +116,7 @@ CHECKS = {
             'enumeration of standard reject/abort values and event positions + Hypothesis over the byte ranges, on a scripted provider',
             'Every standard (result, source, reason) triple and abort (source, reason) pair, generated values over '
             '0-255, four positions of the event (before, between, inside a half-consumed C-FIND stream, during a '
-            'multi-fragment C-STORE), five ways of leaving request_association: the PDUs handed to the provider '
+            'multi-fragment C-STORE), five ways of leaving request_association (also when the peer refused all or most contexts), raw-socket loopback peers incl. release with responses in flight: the PDUs handed to the provider '
             'and the exception type/fields seen by the caller are compared with what the other side did.',
             'Scripted provider (vf/fakedul.py); what the provider itself does with these PDUs is C04/C05.',
             'fakedul', 'DESIGN.md#C14'),
@@ -123,7 +124,7 @@ CHECKS = {
             'Hypothesis-generated data sets and configurations through the whole stack over real loopback TCP with real threads; end-to-end equality and file-integrity oracle',
             'Generated data sets (nested sequences, odd lengths, up to ~30 fragments), 3 transfer syntaxes, '
             'asymmetric maximum PDU lengths, memory/file sources, temp-file / in-memory / directory reception, all '
-            'handler outcomes, repeated instance UIDs: what the handler received must equal what was sent, the '
+            'handler outcomes, repeated instance UIDs, files already present in the storage directory, different instances staged under one source file name: what the handler received must equal what was sent, the '
             'status must come back unchanged, and in the storage directory every instance must keep its own intact file.',
             'OS-chosen schedules (sampled); time-outs are inconclusive; equality by canonical re-encoding with pydicom. '
             'The deterministic counterpart of the data path is C06+C07+C10.', 'loopback', 'DESIGN.md#C15'),
@@ -161,7 +162,7 @@ CHECKS = {
             'right association with the right context and content, survivors unaffected. Part b: 2-4 acceptor bodies '
             'sharing one AE run on scripted providers, interleaved at every provider send/receive in a '
             'Hypothesis-drawn (shrinkable, replayable) order; each must behave exactly as when run alone. '
-            '_new_msg_id() is checked from 16 concurrent threads.',
+            '_new_msg_id() is checked from 16 concurrent threads. Part c: codecs, fragmentation, group length and status classification in 8 threads under a 1 us switch interval against single-threaded results. Part d: one requesting entity with 2-4 associations open at once on scripted peers refusing with codes 1-4: each proposes all configured classes and uses exactly what its own peer accepted.',
             'Races finer than provider primitives are only sampled (part a), not enumerated.',
             'loopback+fakedul', 'DESIGN.md#C20'),
     'C18': (True, 'exploration',
